@@ -30,7 +30,10 @@ impl WindowExecutor {
                 let results = Evaluator::new(&self.exprs).agg_list_get_result(&states);
                 _ = builder.push_row(results);
             }
-            let window_chunk = builder.take().unwrap();
+            // (an empty input chunk, e.g. from a filter that selects nothing, has no window rows)
+            let Some(window_chunk) = builder.take() else {
+                continue;
+            };
             yield chunk.row_concat(window_chunk);
         }
     }
